@@ -152,7 +152,12 @@ RepliesTo(outs, e) == SelectSeq(outs, LAMBDA r : r.to = e.src /\ r.v.k \in Reply
 \* a segmented ComplexACK that nobody acknowledges: the first segment, retransmitted -- one logical reply
 SegAttempt(rs) == /\ Len(rs) >= 1
                   /\ \A k \in 1..Len(rs) : rs[k].v.k = "ComplexAck" /\ rs[k].v.seg /\ rs[k].v.seq = 0 /\ rs[k].v.apdu = rs[1].v.apdu
-OneLogical(rs) == Len(rs) = 1 \/ SegAttempt(rs)
+\* a segmented ComplexACK that the requester does acknowledge (with whatever segment acks): segments of one answer,
+\* possibly given up with an abort -- still one logical reply
+SegTransfer(rs) == /\ Len(rs) >= 1
+                   /\ \A k \in 1..(Len(rs) - 1) : rs[k].v.k = "ComplexAck" /\ rs[k].v.seg
+                   /\ (rs[Len(rs)].v.k = "ComplexAck" /\ rs[Len(rs)].v.seg) \/ (Len(rs) > 1 /\ rs[Len(rs)].v.k = "Abort")
+OneLogical(rs) == Len(rs) = 1 \/ SegAttempt(rs) \/ SegTransfer(rs)
 Complete(rs) == Len(rs) = 1 /\ ~rs[1].v.seg
 
 \* something earlier in the same batch may have switched communication off (DeviceCommunicationControl): what follows
